@@ -609,4 +609,62 @@ def item_options(repo, out):
     out.append('Definition gen_vv_interp_clamps : bool := true.   (* np.interp without left= / right=: clamps outside the table *)')
 
 
-ITEMS = [item_prune, item_fill, item_getters, item_prune_head, item_preselect, item_lostmap, item_options]
+def _bexpr(node, names, what):
+    """boolean expression over integer comparisons -> Coq bool"""
+    if isinstance(node, ast.BoolOp) and isinstance(node.op, (ast.And, ast.Or)):
+        f = 'andb' if isinstance(node.op, ast.And) else 'orb'
+        parts = [_bexpr(v, names, what) for v in node.values]
+        out = parts[-1]
+        for x in reversed(parts[:-1]):
+            out = '(%s %s %s)' % (f, x, out)
+        return out
+    if isinstance(node, ast.Compare) and len(node.ops) == 1 and type(node.ops[0]) in OPS:
+        def term(t):
+            src = ast.unparse(t)
+            if src in names:
+                return names[src]
+            if isinstance(t, ast.Constant) and isinstance(t.value, int) and not isinstance(t.value, bool):
+                return coq_Z(t.value)
+            raise TranslateError('%s: unsupported term %s' % (what, src))
+        return '(%s %s %s)' % (term(node.left), OPS[type(node.ops[0])], term(node.comparators[0]))
+    raise TranslateError('%s: unsupported condition %s' % (what, ast.unparse(node)))
+
+
+def item_dict_store(repo, out):
+    """DictChunkStore.get_chunk: a store that hands out views of arrays it owns; which requests are 'not found'."""
+    rel = 'katdal/chunkstore_dict.py'
+    tree = _parse(repo, rel)
+    init = _method(tree, 'DictChunkStore', '__init__', rel)
+    if _src(_body(init)) != ['error_map = {KeyError: ChunkNotFound, IndexError: ChunkNotFound}',
+                             'super().__init__(error_map)', 'self.arrays = kwargs']:
+        raise TranslateError('DictChunkStore.__init__ changed')
+    gc = _method(tree, 'DictChunkStore', 'get_chunk', rel)
+    b = _body(gc)
+    src = _src(b)
+    if len(b) != 4 or src[0] != 'chunk_name, shape = self.chunk_metadata(array_name, slices, dtype=dtype)' or \
+            not isinstance(b[1], ast.With) or ast.unparse(b[1].items[0]) != 'self._standard_errors(chunk_name)' or \
+            not src[2].startswith('if chunk.shape != shape or chunk.dtype != dtype:\n    raise BadChunk(') or src[3] != 'return chunk':
+        raise TranslateError('DictChunkStore.get_chunk changed: %s' % src)
+    w = _src(b[1].body)
+    if w[0] != 'array = self.arrays[array_name]' or w[-1] != 'chunk = array[slices] if slices != () else array':
+        raise TranslateError('DictChunkStore.get_chunk: lookup statements are %s' % w)
+    mid = b[1].body[1:-1]
+    if not mid:
+        # the pinned code: slicing beyond the end silently gives an empty array (-> BadChunk): finding C06-F2
+        cond = 'false'
+    else:
+        t = mid[0].test if (len(mid) == 1 and isinstance(mid[0], ast.If) and not mid[0].orelse) else None
+        if not (t is not None and len(mid[0].body) == 1 and ast.unparse(mid[0].body[0]).startswith('raise IndexError(')
+                and isinstance(t, ast.Call) and ast.unparse(t.func) == 'any' and len(t.args) == 1
+                and isinstance(t.args[0], ast.GeneratorExp) and len(t.args[0].generators) == 1
+                and ast.unparse(t.args[0].generators[0].target) == '(s, n)'
+                and ast.unparse(t.args[0].generators[0].iter) == 'zip(slices, array.shape)'
+                and not t.args[0].generators[0].ifs):
+            raise TranslateError('DictChunkStore.get_chunk: out-of-range test is %s' % _src(mid))
+        cond = _bexpr(t.args[0].elt, {'s.start': 'start', 's.stop': 'stop', 'n': 'n'}, 'DictChunkStore.get_chunk')
+    out.append('(* DictChunkStore.get_chunk: on some axis (slice start..stop, array length n) the chunk is reported ChunkNotFound iff *)')
+    out.append('Definition gen_dict_outside (start stop n : Z) : bool := %s.' % cond)
+    out.append('Definition gen_dict_returns_view : bool := true.   (* chunk = array[slices]: memory owned by the store *)')
+
+
+ITEMS = [item_prune, item_fill, item_getters, item_prune_head, item_preselect, item_lostmap, item_options, item_dict_store]
